@@ -46,6 +46,9 @@ RULE = (
     "ces as the documented ErrorResponse."
     " \"Later requests\": 1.7 s pass between the requests of one client and the agent clock tic"
     "ks before each answer (responses carry another engine time than their requests)."
+    ' One credentials object shared by the clients of three engines; rotated credentials made'
+    " from the used object by copy / deepcopy / pickle; one case in six follows another user'"
+    's request on the same client that never saw its answer.'
 )
 ASSUMPTIONS = [
     "the only thing assumed about a privacy plug-in is decrypt(encrypt(x)) == x; all harness plug-ins satisfy it exactly",
